@@ -71,6 +71,10 @@ class SW:
             letters = list(reversed(self.labels)) + ["t"]
         elif over == "shared-first-cohort":
             letters = ["t"] + list(self.labels)
+        elif over == "first-label":
+            letters = list(self.labels[:1])
+        elif over == "last-label":
+            letters = list(self.labels[-1:])
         else:
             raise AnalysisError(over)
         dimobjs = {"t": self.tdim, **{l: d for l, d in zip(self.labels, self.ldims)}}
